@@ -26,7 +26,7 @@ REQUIRED_THEOREMS = [
     'Properties.C05.kde_exec_normalised', 'Properties.C05.mg1_volume', 'Properties.C05.boxUniform_normalised',
     'Properties.C05.truncGauss_normalised', 'Properties.C05.erf_mass',
     'Properties.C05.mog_sample_follows_density', 'Properties.C05.mogSample_no_context_counterexample',
-]
+    'Properties.C05.sigmoid_executed_closed_form', 'Properties.C05.bernoulli_sample_law_executed', 'Properties.C05.kdeStd_executed_pos', 'Properties.C05.mg1_normalised', 'Properties.C05.mg1_sample_law', 'Properties.C05.normal_sample_law_nd']
 RULE = ("cases = (class, event shape in {[1],[3],[2,2],[2,1,2]} (MoG: features 1-3), parameter regime, context kind/rows 1-4, "
         "observable in {log_prob, mean, seeded sample, exception kind}); parameters drawn from a seeded generator (zero / normal / "
         "wide / saturating regimes), encoder outputs captured by a recording encoder, MADE outputs by a forward hook on the final "
